@@ -12,7 +12,7 @@ EXPLANATION = (
     "empty FmtStr) and every 0 <= start <= end <= len(f)+2 as well as end omitted, and compared with list splicing of the "
     "per-character (character, formatting) cells: cells(f)[:start] + cells(new) + cells(f)[end:] - Python's list slicing is the "
     "oracle, nothing is re-implemented.  Characters of a plain str are unformatted; append(x) is splice at the end; f itself reads "
-    "the same before and after."
+    "the same before and after; the result's own .s, len() and full slice agree with its runs (a pre-seeded length shows here)."
 )
 NOT_DECIDED = "values longer than the pool's; start > end and negative positions (outside the statement's quantifier)."
 
@@ -91,6 +91,16 @@ def check(src, rep):
         if r[0] != "ok" or not (isinstance(r[1], Obj) and r[1].cls == "FmtStr"):
             return (rule, desc, "gives %s; expected the characters %r" % (r, "".join(c for c, _ in want)))
         got = cells(runs_of(r[1]))
+        try:
+            views = (it.folder.obj_attr(r[1], "s"), it.callm(r[1], "__len__"), it.callm(r[1], "__getitem__", slice(None, None)))
+        except Exception as e:
+            if getattr(e, "name", None) is None:
+                return ("error", "views of %s outside the evaluated subset: %s" % (desc, e), "")
+            views = ("raises %s" % e.name, None, None)
+        wt = "".join(c for c, _ in want)
+        if got == want and (views[0] != wt or views[1] != ("ok", len(wt)) or views[2][0] != "ok" or cells(runs_of(views[2][1])) != want):
+            return (rule, desc, "the result's runs are right (%r) but its own views are not: .s = %r, len() = %s, result[:] = %s"
+                    % (wt, views[0], views[1], "".join(c for c, _ in cells(runs_of(views[2][1]))) if views[2] and views[2][0] == "ok" else views[2]))
         if got != want:
             gt, wt = "".join(c for c, _ in got), "".join(c for c, _ in want)
             if gt != wt:
